@@ -45,7 +45,7 @@ def r1_r2_fits(ctx):
                 ctx.add("R2", "%s|one-jacobian-one-solve|%s" % (qn, tag), "UNDECIDED", "expected one jacobian and one least_squares call", fn=qn)
                 continue
             j, l_ = jc[0], ls[0]
-            n1d = ("call", ("glob", "verde.base.utils.n_1d_arrays"), (Q.sub(cfi, 0),), (("n", const(2)),), 0)
+            n1d = Q.call(ctx, "verde.base.utils.n_1d_arrays", Q.sub(cfi, 0), const(2))
             if none:
                 fc = sets.get(store)
                 ok = None
@@ -186,12 +186,12 @@ def r4_shared_state(ctx):
             ctx.check("R4", "%s|uses-force_|%s" % (qn, tag), True if forces == Q.self_attr("force_") else (False if isinstance(forces, tuple) and (Q.is_self_attr(forces) or is_const(forces)) else None),
                       "the kernel receives self.force_", bad="the kernel receives forces=%s" % (show(forces) if isinstance(forces, tuple) else forces), fn=qn)
             fe, fn_ = Q.arg(ctx, k, "force_east"), Q.arg(ctx, k, "force_north")
-            src = ("call", ("glob", "verde.base.utils.n_1d_arrays"), (Q.self_attr(fc_attr),), (("n", const(2)),), 0)
+            src = Q.call(ctx, "verde.base.utils.n_1d_arrays", Q.self_attr(fc_attr), const(2))
             ok = True if isinstance(fe, tuple) and isinstance(fn_, tuple) and canon(Q.unwrap(fe)) in (canon(Q.sub(src, 0)), canon(Q.sub(Q.self_attr(fc_attr), 0))) and canon(Q.unwrap(fn_)) in (canon(Q.sub(src, 1)), canon(Q.sub(Q.self_attr(fc_attr), 1))) else \
                 (False if isinstance(fe, tuple) and isinstance(fn_, tuple) and canon(Q.unwrap(fe)) in (canon(Q.sub(src, 1)), canon(Q.sub(Q.self_attr(fc_attr), 1))) else None)
             ctx.check("R4", "%s|uses-stored-force-coordinates|%s" % (qn, tag), ok, "the kernel receives the force coordinates stored by fit (easting, northing)", bad="force easting and northing are swapped", fn=qn)
             e_, n_ = Q.arg(ctx, k, "east"), Q.arg(ctx, k, "north")
-            q1 = ("call", ("glob", "verde.base.utils.n_1d_arrays"), (("param", "coordinates"),), (("n", const(2)),), 0)
+            q1 = Q.call(ctx, "verde.base.utils.n_1d_arrays", ("param", "coordinates"), const(2))
             oke = True if isinstance(e_, tuple) and canon(Q.unwrap(e_)) == canon(Q.sub(q1, 0)) and canon(Q.unwrap(n_)) == canon(Q.sub(q1, 1)) else (False if isinstance(e_, tuple) and canon(Q.unwrap(e_)) == canon(Q.sub(q1, 1)) else None)
             ctx.check("R4", "%s|query-points|%s" % (qn, tag), oke, "the kernel receives the raveled query (easting, northing)", bad="query easting and northing are swapped", fn=qn)
 
